@@ -39,6 +39,8 @@ func c14(c *core.Check) {
 	c14Bookmarks(c)
 	c14Radial(c)
 	c14Dashes(c)
+	c14BookmarkWatch(c)
+	c14AttachmentLinks(c)
 	r6 := c.Rule("R6", "no call passes two same-typed arguments under each other's parameter names (swapped arguments): every pair of arguments named after the callee's parameters is aligned with them", 85)
 	argNameRule(c, r6, "html/document", map[string]bool{"document.go": true, "draw.go": true}, 45)
 	argNameRule(c, r6, "images", nil, 20)
@@ -845,5 +847,99 @@ func c14Dashes(c *core.Check) {
 	})
 	if n == 0 {
 		r.Anchor("resolveDashes: call of clampModulo")
+	}
+}
+
+// c14BookmarkWatch: one bookmark per element over the whole document.  layoutDocument remembers the elements (and
+// their ::before / ::after) that already have a bookmark in sets keyed by element; a box split across pages would get
+// one outline entry per page if those sets were created again for each page.
+func c14BookmarkWatch(c *core.Check) {
+	p := c.Prog
+	r := c.Rule("R11", "one bookmark per element: in layoutDocument every set keyed by element (map[*html.Node]…) is created outside the loops of the function — created in the loop over the pages it would forget the elements bookmarked on the previous pages, and a box split across pages would be bookmarked once per page", 3)
+	fn := p.Fn("html/layout", "layoutDocument")
+	if fn == nil {
+		r.Anchor("html/layout.layoutDocument")
+		return
+	}
+	n := 0
+	core.Instrs(fn, func(in ssa.Instruction) {
+		mm, ok := in.(*ssa.MakeMap)
+		if !ok {
+			return
+		}
+		mt, ok := mm.Type().Underlying().(*types.Map)
+		if !ok || !strings.HasSuffix(mt.Key().String(), "html.Node") {
+			return
+		}
+		n++
+		inLoop := core.InnermostLoop(fn, mm.Block()) != nil
+		r.Cond(!inLoop, fmt.Sprintf("html/layout.layoutDocument | set of bookmarked elements #%d", n), p.Pos(mm.Pos()), "created before the loop over the pages", "the set is created inside a loop: each page starts with no element remembered, a box continued from the previous page is bookmarked again (chapter{A,B,C} becomes chapter{A}, chapter{B}, chapter{C})")
+	})
+	if n == 0 {
+		r.Anchor("layoutDocument: the sets of bookmarked elements")
+	}
+}
+
+// c14AttachmentLinks: only an external link can be an attachment.
+func c14AttachmentLinks(c *core.Check) {
+	p := c.Prog
+	r := c.Rule("R12", "an attachment is an external link: in gatherLinksAndBookmarks a link is retyped \"attachment\" only on the path where its type was compared equal to \"external\" (an internal link marked rel=attachment must stay internal: it is resolved against the anchors, and no file was embedded for it)", 1)
+	fn := p.Fn("html/document", "gatherLinksAndBookmarks")
+	if fn == nil {
+		r.Anchor("html/document.gatherLinksAndBookmarks")
+		return
+	}
+	var atoms []ssa.Value
+	for _, a := range core.CondAtoms(fn) {
+		if bo, ok := a.(*ssa.BinOp); ok && bo.Op == token.EQL {
+			if s, isS := core.ConstStr(bo.Y); isS && s == "external" {
+				atoms = append(atoms, a)
+			}
+		}
+	}
+	// the merge that selects "attachment": a phi with that constant on one edge
+	n := 0
+	core.Instrs(fn, func(in ssa.Instruction) {
+		phi, ok := in.(*ssa.Phi)
+		if !ok {
+			return
+		}
+		for i, e := range phi.Edges {
+			s, isS := core.ConstStr(e)
+			if !isS || s != "attachment" {
+				continue
+			}
+			n++
+			pred := phi.Block().Preds[i]
+			ok2 := false
+			if len(atoms) > 0 {
+				ok2, _ = core.GuardedBy(fn, pred, atoms, func(m map[ssa.Value]bool) bool {
+					for _, v := range m {
+						if v {
+							return true
+						}
+					}
+					return false
+				})
+				// the assigning block may be the testing block's true successor folded into the phi edge
+				if !ok2 {
+					for _, a := range atoms {
+						if ai, isI := a.(ssa.Instruction); isI && ai.Block() == pred {
+							if ifi, isIf := pred.Instrs[len(pred.Instrs)-1].(*ssa.If); isIf && pred.Succs[0] == phi.Block() {
+								for _, x := range core.ExpandBoolPhi(ifi.Cond) {
+									if x == a {
+										ok2 = true
+									}
+								}
+							}
+						}
+					}
+				}
+			}
+			r.Cond(ok2, "html/document.gatherLinksAndBookmarks | linkType = \"attachment\"", p.Pos(phi.Pos()), "only where linkType == \"external\" held", "a link becomes an attachment without having been found external: `<a rel=attachment href=\"#top\">` skips the anchor resolution and AddFileAnnotation is called with an id that was never embedded")
+		}
+	})
+	if n == 0 {
+		r.Anchor("gatherLinksAndBookmarks: linkType = \"attachment\"")
 	}
 }
